@@ -377,7 +377,8 @@ def item_kinds(ops, tier):
             for n in ((2,) if tier == "quick" else (0, 1, 2, 3)):
                 full.append((op, ("list", n)))
         elif op == "NotEquals":
-            full += [(op, "varnull"), (op, "varnonnull")]
+            # concrete nullness (one path each) and symbolic nullness (the code branches on it: two paths, forked)
+            full += [(op, "varnull"), (op, "varnonnull"), (op, "var")]
         elif op == "Equals":
             full += [(op, "var")]
         elif op in M.ORDERING:
@@ -608,7 +609,9 @@ def run(fns, tier):
         real = native_static(vcases)
         asserts, idx = [], []
         for k, ((combo, nullable, assign), r) in enumerate(zip(vmeta, real)):
-            built = [make_filter(i, s) for i, s in enumerate(combo)]
+            # a concrete case has concrete nullness: take the one-path shape of `!=`
+            conc = [(("NotEquals", "varnull" if assign[f"a{i}n"] else "varnonnull") if s == ("NotEquals", "var") else s) for i, s in enumerate(combo)]
+            built = [make_filter(i, s) for i, s in enumerate(conc)]
             vpaths = interp.run_paths(interp.find(r"^fn candidate_from_statically_evaluated_filters\("), lambda built=built, nullable=nullable: {1: lst([mkref(o) for o, _ in built]), 2: {"kind": "opaque"}, 3: {"kind": "bool", "v": nullable}})
             if len(vpaths) != 1 or isinstance(vpaths[0][1], PanicPath):
                 out["validated"] += 0       # forking constructors are validated through replay only
@@ -622,7 +625,7 @@ def run(fns, tier):
                 continue
             envc = concrete_env(NF, assign)
             mem = member(deref(res["payload"][0]), FV("pn", "pv"))
-            passes = "(and true " + " ".join(p for _, p in built) + ")"
+            passes = "(and true " + " ".join(p for _, p in built) + ("" if nullable else " (not pn)") + ")"
             asserts += [f"(and {envc} {mem})", f"(and {envc} {passes})"]
             idx.append(k)
         if asserts:
